@@ -95,6 +95,16 @@ struct LoopContext {
 }
 
 impl Compiler {
+    /// Narrow an element count to the 8-bit width of the register file.
+    ///
+    /// Constructs that need more than 255 consecutive registers (array literals,
+    /// template parts, parameter lists, ...) are refused with an explicit limit
+    /// error instead of having their size silently truncated by an `as u8` cast.
+    pub(super) fn register_span(count: usize, what: &str) -> Result<u8, JsError> {
+        u8::try_from(count)
+            .map_err(|_| JsError::syntax_error_simple(format!("Too many {} (max 255)", what)))
+    }
+
     /// Create a new compiler
     pub fn new() -> Self {
         Self {
